@@ -94,9 +94,96 @@ func c16marathon(c *core.Ctx) {
 	c.NonTrivial(core.Mix(c.Seed, uint64(c.Index), 1616))
 }
 
+// c16sweep: ALL call sequences of length <= 10 over {insert, remove, Peek+Len} from the
+// zero value, for the Queue (case 0) and the Stack (case 1), against the slice model.
+func c16sweep(c *core.Ctx, stack bool) {
+	seqs := 0
+	for L := 0; L <= 10; L++ {
+		total := 1
+		for i := 0; i < L; i++ {
+			total *= 3
+		}
+		for code := 0; code < total; code++ {
+			var q lists.Queue[int]
+			var st lists.Stack[int]
+			var model []int
+			next := 0
+			var hist []string
+			fail := func(sig, msg string) {
+				c.Violate("sweep:"+sig, fmt.Sprintf("%s [exhaustive sweep from the zero value, calls %v]", msg, hist), map[string]any{"history": hist})
+			}
+			for x, k := code, 0; k < L; k++ {
+				op := x % 3
+				x /= 3
+				switch op {
+				case 0:
+					next++
+					hist = append(hist, fmt.Sprintf("insert(%d)", next))
+					if stack {
+						st.Push(next)
+					} else {
+						q.Enqueue(next)
+					}
+					model = append(model, next)
+				case 1:
+					hist = append(hist, "remove()")
+					var v int
+					var ok bool
+					want, wok := 0, len(model) > 0
+					if stack {
+						v, ok = st.Pop()
+						if wok {
+							want, model = model[len(model)-1], model[:len(model)-1]
+						}
+					} else {
+						v, ok = q.Dequeue()
+						if wok {
+							want, model = model[0], model[1:]
+						}
+					}
+					if ok != wok || v != want {
+						fail("remove", fmt.Sprintf("remove returned (%d,%v), expected (%d,%v)", v, ok, want, wok))
+						return
+					}
+				case 2:
+					hist = append(hist, "Peek()+Len()")
+					var v, n int
+					var ok bool
+					want, wok := 0, len(model) > 0
+					if stack {
+						v, ok = st.Peek()
+						n = len(st)
+						if wok {
+							want = model[len(model)-1]
+						}
+					} else {
+						v, ok = q.Peek()
+						n = q.Len()
+						if wok {
+							want = model[0]
+						}
+					}
+					if ok != wok || v != want || n != len(model) {
+						fail("Peek/Len", fmt.Sprintf("Peek returned (%d,%v) and Len %d, expected (%d,%v) and %d", v, ok, n, want, wok, len(model)))
+						return
+					}
+				}
+			}
+			seqs++
+		}
+	}
+	c.Count("exhaustive_sweep_sequences", int64(seqs))
+	c.Count("exhaustive_sweeps_completed", 1)
+	c.NonTrivial(core.Mix(16, uint64(c.Index), 0x5eeb))
+}
+
 func runC16(c *core.Ctx) {
 	if c.Mode == "marathon" {
 		c16marathon(c)
+		return
+	}
+	if c.Index < 2 {
+		c16sweep(c, c.Index == 1)
 		return
 	}
 	r := c.R
@@ -367,6 +454,11 @@ func qsTyped[T comparable](c *core.Ctx, tname string, nops, flipDen int, mk func
 	r := c.R
 	var q lists.Queue[T]
 	var st lists.Stack[T]
+	// a second queue and stack of the same type receive other values now and then and
+	// are drained at the end: containers must not share anything
+	var q2 lists.Queue[T]
+	var st2 lists.Stack[T]
+	var m2 []int
 	var qm, sm []int
 	var zero T
 	next := 0
@@ -389,6 +481,11 @@ func qsTyped[T comparable](c *core.Ctx, tname string, nops, flipDen int, mk func
 			next++
 			q.Enqueue(mk(next))
 			qm = append(qm, next)
+			if next%7 == 0 && len(m2) < 500 {
+				q2.Enqueue(mk(1000000 + next))
+				st2.Push(mk(1000000 + next))
+				m2 = append(m2, 1000000+next)
+			}
 		case op == 0:
 			next++
 			st.Push(mk(next))
@@ -445,6 +542,16 @@ func qsTyped[T comparable](c *core.Ctx, tname string, nops, flipDen int, mk func
 			return fail("Pop:order", fmt.Sprintf("final drain: Pop=(%v,%v) want value #%d", v, ok, sm[len(sm)-1]))
 		}
 		sm = sm[:len(sm)-1]
+	}
+	if q2.Len() != len(m2) || len(st2) != len(m2) {
+		return fail("two-containers", fmt.Sprintf("a second queue/stack that received %d values holds %d/%d", len(m2), q2.Len(), len(st2)))
+	}
+	for i := range m2 {
+		v, ok := q2.Dequeue()
+		w, ok2 := st2.Pop()
+		if !ok || !ok2 || v != mk(m2[i]) || w != mk(m2[len(m2)-1-i]) {
+			return fail("two-containers", fmt.Sprintf("a second queue/stack used next to the first returned (%v,%v)/(%v,%v) at position %d", v, ok, w, ok2, i))
+		}
 	}
 	if _, ok := q.Dequeue(); ok || q.Len() != 0 {
 		return fail("Dequeue:empty", "drained queue is not empty")
